@@ -81,6 +81,12 @@ def run_case(case, R):
                 break
         al = pa.DHTVPermutationAlignment(stft_size=2 * (F - 1), segment_start=start, segment_width=width, segment_shift=shift, main_iterations=20, sub_iterations=case.get('sub_iterations', 2), similarity_metric=metric)
     field = pa.sample_random_mapping(K, F, random_state=np.random.RandomState(int(rng.integers(2 ** 31))))
+    fk = case['rs'][-1] % 5
+    if fk == 3:
+        field[:] = rng.permutation(K)[:, None]                 # "arbitrary" includes no diversity at all: one (non-trivial) order in every bin
+    elif fk == 4:
+        two = [rng.permutation(K), rng.permutation(K)]        # ... or only two different orders
+        field = np.stack([two[int(b)] for b in rng.integers(0, 2, size=F)], axis=1)
     seg = np.arange(al.segment_start, al.segment_start + al.segment_width)
     field[:, rng.permutation(seg)[:int(np.ceil(0.7 * len(seg)))]] = rng.permutation(K)[:, None]
     # start: per-frequency permuted, blurred partition -------------------------------------------------------------------------
